@@ -605,6 +605,18 @@ func (c *Check) nodeletIDs() {
 					verbPos = append(verbPos, i)
 				}
 			}
+			// the identifier put together in two steps and used by name: source := "N%d",
+			// nodelet := "%s_%d" (one value, so all its uses agree by construction)
+			if format == "%s_%d" && fi == 0 && len(args) == 2 {
+				for n := valueUses(call); n > 0; n-- {
+					pairs = append(pairs, pair{args[0], args[1]})
+					useAt = append(useAt, call)
+				}
+				if first == token.NoPos {
+					first = call.Pos()
+				}
+				continue
+			}
 			for _, loc := range nodeletRE.FindAllStringIndex(format, -1) {
 				// which verbs are at loc[0]+1 and loc[0]+4
 				ia, ib := -1, -1
@@ -678,8 +690,19 @@ func (c *Check) divisorUnmodified() {
 	var calls []*ssa.Call
 	for _, b := range f.Blocks {
 		for _, ins := range b.Instrs {
-			if call, ok := ins.(*ssa.Call); ok && call.Call.StaticCallee() == nil && len(f.Params) >= 3 && call.Call.Value == ssa.Value(f.Params[2]) {
-				calls = append(calls, call)
+			if call, ok := ins.(*ssa.Call); ok && len(f.Params) >= 3 {
+				isDiv := call.Call.Value == ssa.Value(f.Params[2])
+				// `if meanDiv == nil { meanDiv = func(...) int64 { return 0 } }`: the parameter merged with a default
+				if ph, isPhi := call.Call.Value.(*ssa.Phi); isPhi {
+					for _, e := range ph.Edges {
+						if e == ssa.Value(f.Params[2]) {
+							isDiv = true
+						}
+					}
+				}
+				if isDiv {
+					calls = append(calls, call)
+				}
 			}
 		}
 	}
